@@ -49,6 +49,23 @@ func c08Run(r *Run) {
 							seen[fd] = true
 							out = append(out, fd)
 						}
+						// a call through an interface of this package reaches every implementation in it
+						if fn, ok := f.(*types.Func); ok && byObj[f] == nil && fn.Pkg() == p.Types {
+							if sig, ok := fn.Type().(*types.Signature); ok && sig.Recv() != nil {
+								if iface, ok := sig.Recv().Type().Underlying().(*types.Interface); ok {
+									for _, g := range funcDecls(p) {
+										if g.Recv == nil || g.Name.Name != fn.Name() || seen[g] || g.Body == nil {
+											continue
+										}
+										rt := info.TypeOf(g.Recv.List[0].Type)
+										if rt != nil && (types.Implements(rt, iface) || types.Implements(types.NewPointer(rt), iface)) {
+											seen[g] = true
+											out = append(out, g)
+										}
+									}
+								}
+							}
+						}
 					}
 				}
 				return true
@@ -68,6 +85,20 @@ func c08Run(r *Run) {
 			}
 			return true
 		})
+		if !recursive {
+			// mutual recursion (nodeIs -> superTypeIs -> nodeIs, also through an interface of the package):
+			// some function this one reaches calls it back
+			for _, g := range closure(p, fd)[1:] {
+				for _, h := range closure(p, g) {
+					if h == fd {
+						recursive = true
+					}
+				}
+				if recursive {
+					break
+				}
+			}
+		}
 		var u use
 		var walk func(n ast.Node, inLoop bool)
 		walk = func(n ast.Node, inLoop bool) {
@@ -455,6 +486,42 @@ func c08Run(r *Run) {
 		fk := funcKey(dpkg, fd)
 		// first statement group: own class lookup before any loop
 		ownFirst := false
+		// local closures of the lookup (probe := func(class ClassStmt) (Method, bool) { return class.GetMethod(name) })
+		localLits := map[types.Object]*ast.FuncLit{}
+		ast.Inspect(fd.Body, func(n ast.Node) bool {
+			if as, ok := n.(*ast.AssignStmt); ok && len(as.Lhs) == 1 && len(as.Rhs) == 1 {
+				if id, ok := as.Lhs[0].(*ast.Ident); ok {
+					if lit, ok := ast.Unparen(as.Rhs[0]).(*ast.FuncLit); ok {
+						if o := info.Defs[id]; o != nil {
+							localLits[o] = lit
+						}
+					}
+				}
+			}
+			return true
+		})
+		looksUpMethod := func(body ast.Node) bool {
+			found := false
+			ast.Inspect(body, func(m ast.Node) bool {
+				if c, ok := m.(*ast.CallExpr); ok {
+					if se, ok := ast.Unparen(c.Fun).(*ast.SelectorExpr); ok && se.Sel.Name == "GetMethod" {
+						found = true
+					}
+				}
+				return !found
+			})
+			return found
+		}
+		probeOf := func(e ast.Expr) *ast.FuncLit {
+			switch x := ast.Unparen(e).(type) {
+			case *ast.FuncLit:
+				return x
+			case *ast.Ident:
+				return localLits[info.Uses[x]]
+			}
+			return nil
+		}
+		ancestorWalkSeen := false
 		for _, st := range fd.Body.List {
 			if _, isLoop := st.(*ast.ForStmt); isLoop {
 				break
@@ -464,6 +531,18 @@ func c08Run(r *Run) {
 					if se, ok := ast.Unparen(c.Fun).(*ast.SelectorExpr); ok && se.Sel.Name == "GetMethod" {
 						if x, ok := ast.Unparen(se.X).(*ast.SelectorExpr); ok && x.Sel.Name == "Class" {
 							ownFirst = true
+						}
+					}
+					// probe(c.Class) through a local closure that looks the method up on its argument
+					if lit := probeOf(c.Fun); lit != nil && len(c.Args) == 1 && !ancestorWalkSeen && looksUpMethod(lit.Body) {
+						if x, ok := ast.Unparen(c.Args[0]).(*ast.SelectorExpr); ok && x.Sel.Name == "Class" {
+							ownFirst = true
+						}
+					}
+					// a call that hands a probe to an ancestor walker comes after the own-class lookup
+					if cal := calleeFunc(info, c); cal != nil {
+						if _, wd := r.declAnywhere(cal); wd != nil && c08WalksWithCallback(info, wd) {
+							ancestorWalkSeen = true
 						}
 					}
 				}
@@ -570,6 +649,18 @@ func c08Run(r *Run) {
 			case *ast.ForStmt:
 				if advancing(x) && looksUp(x.Body, nil) {
 					walks = true
+				}
+			case *ast.CallExpr:
+				// searchAncestors(c, probe): a helper of the package that advances along the chain and asks
+				// a function parameter at every level, handed a probe that looks the method up
+				if cal := calleeFunc(info, x); cal != nil {
+					if _, wd := r.declAnywhere(cal); wd != nil && wd != fd && c08WalksWithCallback(info, wd) {
+						for _, arg := range x.Args {
+							if lit := probeOf(arg); lit != nil && looksUpMethod(lit.Body) {
+								walks = true
+							}
+						}
+					}
 				}
 			case *ast.RangeStmt:
 				c, ok := ast.Unparen(x.X).(*ast.CallExpr)
@@ -1015,4 +1106,65 @@ func c08ImplementsFollowed(r *Run, p *packages.Package, fd *ast.FuncDecl, closur
 			r.bad(key, g.pos, "the implements list of "+recv+" is only compared by name: an interface reached through the parents of an implemented interface is missed for this class (instanceof / type hint / catch disagree with the declared hierarchy)")
 		}
 	}
+}
+
+// c08WalksWithCallback: fd contains a loop that advances along the extends chain (its condition re-reads
+// GetExtend() of a variable the body reassigns) and calls a function-typed parameter of fd in that loop.
+func c08WalksWithCallback(info *types.Info, fd *ast.FuncDecl) bool {
+	if fd.Body == nil || fd.Type.Params == nil {
+		return false
+	}
+	cbs := map[types.Object]bool{}
+	for _, f := range fd.Type.Params.List {
+		if _, isFn := info.TypeOf(f.Type).Underlying().(*types.Signature); isFn {
+			for _, nm := range f.Names {
+				cbs[info.Defs[nm]] = true
+			}
+		}
+	}
+	if len(cbs) == 0 {
+		return false
+	}
+	found := false
+	ast.Inspect(fd.Body, func(n ast.Node) bool {
+		fs, ok := n.(*ast.ForStmt)
+		if !ok || fs.Cond == nil || found {
+			return !found
+		}
+		var loopVar types.Object
+		ast.Inspect(fs.Cond, func(m ast.Node) bool {
+			if c, ok := m.(*ast.CallExpr); ok {
+				if se, ok := ast.Unparen(c.Fun).(*ast.SelectorExpr); ok && se.Sel.Name == "GetExtend" {
+					if id, ok := ast.Unparen(se.X).(*ast.Ident); ok {
+						loopVar = info.Uses[id]
+					}
+				}
+			}
+			return true
+		})
+		if loopVar == nil {
+			return true
+		}
+		reassigned, asks := false, false
+		ast.Inspect(fs.Body, func(m ast.Node) bool {
+			switch x := m.(type) {
+			case *ast.AssignStmt:
+				for _, l := range x.Lhs {
+					if id, ok := l.(*ast.Ident); ok && info.Uses[id] == loopVar {
+						reassigned = true
+					}
+				}
+			case *ast.CallExpr:
+				if id, ok := ast.Unparen(x.Fun).(*ast.Ident); ok && cbs[info.Uses[id]] {
+					asks = true
+				}
+			}
+			return true
+		})
+		if reassigned && asks {
+			found = true
+		}
+		return !found
+	})
+	return found
 }
